@@ -5,12 +5,16 @@ import (
 	"encoding/json"
 	"fmt"
 	"go/ast"
+	"go/parser"
+	"go/token"
 	"go/types"
 	"strings"
 
 	"github.com/dave/dst"
 	"github.com/dave/dst/decorator"
+	"github.com/dave/dst/decorator/resolver/goast"
 	"github.com/dave/dst/decorator/resolver/gotypes"
+	"github.com/dave/dst/decorator/resolver/guess"
 	"github.com/dave/dst/decorator/resolver/simple"
 )
 
@@ -29,6 +33,69 @@ type c10Move struct {
 	ToPkg    string   `json:"to_pkg"`    // "" = same package
 	ToFile   int      `json:"to_file"`
 	Twice    bool     `json:"twice"` // move it on to a third place afterwards
+	// how the file the declaration is taken from was decorated: "" = from the type-checked ast with the
+	// types-based resolver; otherwise with the syntax-only resolver, the *ast.File NOT coming straight
+	// from the parser:
+	//   goast-restored  parsed, decorated plainly, restored to an ast (Restorer.RestoreFile), that ast decorated
+	//   goast-built     the parsed file with the parser's derived File.Imports list dropped (as in a generated ast)
+	//   goast-parsed    the parsed file as it is (the reference point of the other two)
+	Resolver string `json:"resolver,omitempty"`
+}
+
+var c10SyntacticResolvers = []string{"goast-restored", "goast-built", "goast-parsed"}
+
+// c10SyntacticSource decorates one source file with the syntax-only resolver (see c10Move.Resolver).
+// refused: the resolver returned an error for a file with a dot-import (which it cannot decide).
+func c10SyntacticSource(src, pkgPath, how string, names map[string]string) (df *dst.File, refused bool, key, what string) {
+	fset := token.NewFileSet()
+	af, err := parser.ParseFile(fset, "moved_from.go", src, parser.ParseComments)
+	if err != nil {
+		return nil, false, "c10-program", "the source file does not parse: " + err.Error()
+	}
+	hasDot := fileHasDotImport(af)
+	switch how {
+	case "goast-restored":
+		var f0 *dst.File
+		var rf *ast.File
+		rs := decorator.NewRestorer()
+		rs.Extras = true // objects travel: the syntax-only resolver sees shadowed package names through Ident.Obj
+		pm := safely(func() {
+			if f0, err = decorator.NewDecorator(fset).DecorateFile(af); err == nil {
+				rf, err = rs.RestoreFile(f0)
+			}
+		})
+		if pm != "" || err != nil {
+			return nil, false, "c10-decorate", fmt.Sprintf("plain decoration and restoring to an ast failed: %v %s", err, pm)
+		}
+		af, fset = rf, rs.Fset
+	case "goast-built":
+		af.Imports = nil
+	}
+	// the names the resolver is given are accurate; where guessing (last path element) is accurate for
+	// every package, the resolver's own default is used
+	guessable := true
+	for p, n := range names {
+		if g, _ := guess.New().ResolvePackage(p); g != n {
+			guessable = false
+		}
+	}
+	var res *goast.DecoratorResolver
+	if guessable {
+		res = goast.New()
+	} else {
+		res = goast.WithResolver(simple.New(names))
+	}
+	pm := safely(func() { df, err = decorator.NewDecoratorWithImports(fset, pkgPath, res).DecorateFile(af) })
+	if pm != "" {
+		return nil, false, "c10-decorate", "decorating with the syntax-only resolver panicked: " + pm
+	}
+	if err != nil {
+		if hasDot && strings.Contains(err.Error(), "dot-import") {
+			return nil, true, "", ""
+		}
+		return nil, false, "c10-decorate", "the syntax-only resolver failed on a file without dot-imports: " + err.Error()
+	}
+	return df, false, "", ""
 }
 
 var c10Programs = []program{
@@ -126,6 +193,20 @@ func denotations(info *types.Info, d ast.Decl, self *types.Package, crossPackage
 	return out
 }
 
+// c10SrcPkg: the package the declaration is taken from
+func c10SrcPkg(prog program, mv c10Move) progPkg {
+	srcPkg := prog.Pkgs[len(prog.Pkgs)-1]
+	if mv.Program == nil && (mv.Prog == 1 || mv.Prog == 2) {
+		srcPkg = prog.Pkgs[2]
+	}
+	for _, pk := range prog.Pkgs {
+		if mv.SrcPkg != "" && pk.Path == mv.SrcPkg {
+			srcPkg = pk
+		}
+	}
+	return srcPkg
+}
+
 func c10Check(mv c10Move) (key, what string) {
 	var prog program
 	if mv.Program != nil {
@@ -142,15 +223,7 @@ func c10Check(mv c10Move) (key, what string) {
 		names[p] = tp.Name()
 		names[stripVendorRef(p)] = tp.Name()
 	}
-	srcPkg := prog.Pkgs[len(prog.Pkgs)-1]
-	if mv.Program == nil && (mv.Prog == 1 || mv.Prog == 2) {
-		srcPkg = prog.Pkgs[2]
-	}
-	for _, pk := range prog.Pkgs {
-		if mv.SrcPkg != "" && pk.Path == mv.SrcPkg {
-			srcPkg = pk
-		}
-	}
+	srcPkg := c10SrcPkg(prog, mv)
 	tgtPkgPath := srcPkg.Path
 	if mv.ToPkg != "" {
 		tgtPkgPath = mv.ToPkg
@@ -171,6 +244,16 @@ func c10Check(mv c10Move) (key, what string) {
 			}
 			dfiles[pp] = append(dfiles[pp], df)
 		}
+	}
+	if mv.Resolver != "" {
+		df, refused, key, what := c10SyntacticSource(srcPkg.Files[mv.FromFile], srcPkg.Path, mv.Resolver, names)
+		if key != "" {
+			return key, what
+		}
+		if refused {
+			return "", ""
+		}
+		dfiles[srcPkg.Path][mv.FromFile] = df
 	}
 	from := dfiles[srcPkg.Path][mv.FromFile]
 	var moved dst.Decl
@@ -199,7 +282,11 @@ func c10Check(mv c10Move) (key, what string) {
 		nxt := (mv.ToFile + 1) % len(dfiles[tgtPkgPath])
 		if nxt != mv.ToFile && !(tgtPkgPath == srcPkg.Path && nxt == mv.FromFile) {
 			var buf bytes.Buffer
-			decorator.NewRestorerWithImports(tgtPkgPath, simple.New(names)).Fprint(&buf, to)
+			var err error
+			pm := safely(func() { err = decorator.NewRestorerWithImports(tgtPkgPath, simple.New(names)).Fprint(&buf, to) })
+			if pm != "" || err != nil {
+				return "c10-restore", fmt.Sprintf("restoring %s file %d at the intermediate place of a repeated move failed: %v %s", tgtPkgPath, mv.ToFile, err, pm)
+			}
 			to.Decls = to.Decls[:len(to.Decls)-1]
 			to2 := dfiles[tgtPkgPath][nxt]
 			to2.Decls = append(to2.Decls, moved)
@@ -252,7 +339,7 @@ func c10Check(mv c10Move) (key, what string) {
 }
 
 func c10Prop(c *Ctx) {
-	c.Res.Rule = "every (declaration, target) pair of two type-checked programs: declarations using remote packages through qualifiers, aliases and dot-imports (incl. dot-imported identifiers as map keys and in function values), moved into files of the same package that import the packages under other names, through a dot-import, under a conflicting alias, or not at all, and into a package that imports nothing; single and repeated moves; non-trivial = distinct move"
+	c.Res.Rule = "every (declaration, target) pair of two type-checked programs: declarations using remote packages through qualifiers, aliases and dot-imports (incl. dot-imported identifiers as map keys and in function values), moved into files of the same package that import the packages under other names, through a dot-import, under a conflicting alias, or not at all, and into a package that imports nothing; single and repeated moves; every move from a file without dot-imports repeated with that file decorated by the syntax-only resolver from an ast that is not the parser's (restored from a plainly decorated tree; File.Imports dropped) and from the parser's; non-trivial = distinct move"
 	type cand struct {
 		prog, file int
 		decl       string
@@ -277,6 +364,13 @@ func c10Prop(c *Ctx) {
 				if key, what := c10Check(mv); key != "" {
 					c.Res.fail(key, what, mv)
 				}
+				// the same move with the source file decorated by the syntax-only resolver from an ast that
+				// is not the parser's (files with dot-imports are refused by that resolver: nothing to move)
+				if twice {
+					c10SyntacticMoves(c, mv, "same-package ", "goast-restored")
+				} else {
+					c10SyntacticMoves(c, mv, "same-package ")
+				}
 			}
 		}
 		// into another package (only declarations without references to local objects)
@@ -288,6 +382,7 @@ func c10Prop(c *Ctx) {
 			if key, what := c10Check(mv); key != "" {
 				c.Res.fail(key, what, mv)
 			}
+			c10SyntacticMoves(c, mv, "cross-package ")
 			if len(c.Res.Samples) < 2 {
 				c.Res.Samples = append(c.Res.Samples, mv)
 			}
@@ -300,6 +395,33 @@ func c10Prop(c *Ctx) {
 			if key, what := c10Check(mv); key != "" {
 				c.Res.fail(key, what, mv)
 			}
+			c10SyntacticMoves(c, mv, "cross-package ")
+		}
+	}
+}
+
+// c10SyntacticMoves: the move repeated with the source file decorated by the syntax-only resolver from
+// an ast that is not the parser's own (c10Move.Resolver)
+func c10SyntacticMoves(c *Ctx, mv c10Move, label string, hows ...string) {
+	if len(hows) == 0 {
+		hows = c10SyntacticResolvers
+	}
+	prog := c10Programs[mv.Prog]
+	if mv.Program != nil {
+		prog = *mv.Program
+	}
+	from := c10SrcPkg(prog, mv).Files[mv.FromFile]
+	if strings.Contains(from, "import . ") || strings.Contains(from, "\t. \"") {
+		return // the syntax-only resolver refuses files with dot-imports (C09): nothing to move
+	}
+	for _, how := range hows {
+		mv2 := mv
+		mv2.Resolver = how
+		c.Res.Evaluations++
+		c.Res.seen(fmt.Sprint(mv2.Prog, mv2.FromFile, mv2.Decl, mv2.ToPkg, mv2.ToFile, mv2.Twice, how, from))
+		c.Res.hist("c10", label+how)
+		if key, what := c10Check(mv2); key != "" {
+			c.Res.fail(key, what, mv2)
 		}
 	}
 }
@@ -350,6 +472,7 @@ func referencedElsewhere(info *types.Info, files []*ast.File, d ast.Decl, self *
 // packages it needs under another name, an alias that is the name of another package, through a
 // dot-import, blank, or not at all), and, when it refers to no local object, into the empty package
 func c10Generated(c *Ctx) {
+	synth := 0 // alternates the two not-from-the-parser variants over the generated moves
 	for gi := 0; gi < c.N(10); gi++ {
 		g := genProgram(c.Rng)
 		// what travels with the code is assigned per file also when the package is decorated as one node
@@ -414,6 +537,8 @@ func c10Generated(c *Ctx) {
 					if key, what := c10Check(mv); key != "" {
 						c.Res.fail(key, what, mv)
 					}
+					synth++
+					c10SyntacticMoves(c, mv, "generated same-package ", c10SyntacticResolvers[synth%2])
 				}
 				if !usesLocalObjects(chk.info[local.Path], ad, chk.pkgs[local.Path]) && !referencedElsewhere(chk.info[local.Path], chk.files[local.Path], ad, chk.pkgs[local.Path]) {
 					pp := prog
@@ -424,6 +549,8 @@ func c10Generated(c *Ctx) {
 					if key, what := c10Check(mv); key != "" {
 						c.Res.fail(key, what, mv)
 					}
+					synth++
+					c10SyntacticMoves(c, mv, "generated cross-package ", c10SyntacticResolvers[synth%2])
 				}
 			}
 		}
